@@ -4,10 +4,38 @@ use std::panic;
 
 mod witness;
 
+/// A witness runs the real code on the scenario of a solver counterexample.  The witnesses themselves do not panic on the
+/// unchanged tree (the quick checks of every registered query run them there); a panic raised while one runs therefore
+/// comes from the code under test (an `expect`, an index, a debug assertion) and counts as the defect manifesting.
+fn run_witness(ids: &str) -> Option<bool> {
+    // several witnesses may be named (comma separated): the defect has to manifest in one of them
+    let mut res = None;
+    for id in ids.split(',') {
+        match run_one_witness(id) {
+            Some(true) => return Some(true),
+            Some(false) => res = Some(false),
+            None => return None,
+        }
+    }
+    res
+}
+
+fn run_one_witness(id: &str) -> Option<bool> {
+    let id2 = id.to_string();
+    match panic::catch_unwind(move || witness::run(&id2)) {
+        Ok(r) => r,
+        Err(e) => {
+            let msg = e.downcast_ref::<String>().cloned().or_else(|| e.downcast_ref::<&str>().map(|s| s.to_string())).unwrap_or_default();
+            eprintln!("witness {id}: the code under test panicked: {msg}");
+            Some(true)
+        }
+    }
+}
+
 fn main() {
     let args: Vec<String> = std::env::args().collect();
     if args.len() == 3 && args[1] == "--witness" {
-        match witness::run(&args[2]) {
+        match run_witness(&args[2]) {
             None => {
                 eprintln!("unknown witness");
                 std::process::exit(2)
@@ -27,7 +55,7 @@ fn main() {
             serde_json::from_str(&std::fs::read_to_string(&args[2]).expect("read")).expect("json");
         if let Some(w) = v["witness"].as_str() {
             // a finding of an E3 query: its replay is the native witness program
-            let hit = witness::run(w).unwrap_or(false);
+            let hit = run_witness(w).unwrap_or(false);
             println!("{}", serde_json::json!({"witness": w, "failed": if hit { vec!["defect manifests"] } else { vec![] }}));
             return;
         }
